@@ -134,7 +134,9 @@ impl C08 {
                         let out = w.apply(&provide_op(sender, &p.info.pool_identifier, funds, None, None, None, Some(pos.unlocking_duration), Some(name.clone())));
                         let after = fobserve(w).positions.get(&pos.identifier).cloned();
                         let changed = before != after;
-                        if changed && *sender != owner {
+                        if changed && p.info.lp_denom != lp {
+                            rep.failed("authz", None, format!("a locked deposit into pool {} (another LP token) changed position {} of {} (sender {})", p.info.pool_identifier, pos.identifier, w.name_of(owner.as_str()), w.name_of(sender.as_str())), witness(json!({"before": before.map(|b| format!("{b}")), "after": after.map(|a| format!("{a}"))})));
+                        } else if changed && *sender != owner {
                             rep.failed("authz", None, format!("{} changed {}'s position {} through a locked deposit naming '{name}'", w.name_of(sender.as_str()), w.name_of(owner.as_str()), pos.identifier), witness(json!({"before": before.map(|b| format!("{b}")), "after": after.map(|a| format!("{a}"))})));
                         } else {
                             rep.held("authz", hash_of(&("via_pm", *sender == owner, out.is_ok(), name == &pos.identifier, p.info.lp_denom == lp)), || json!({"action": "locked deposit naming the position via the pool manager", "named_as_stored": name == &pos.identifier, "own_pool": p.info.lp_denom == lp, "by_owner": *sender == owner, "result": out.short()}));
